@@ -715,6 +715,10 @@ int main(int argc, char **argv) {
         add(R, "focusE_L" + std::to_string(level) + "_p" + std::to_string(pl), ES, true, false,
             [=](uint64_t idx) { return place(focus_tree(level, idx, 0, VV), pl); });
     }
+  // deep chains (the property speaks of depth 0..8): depth 4..8 at the geometry root, entry sets only
+  if (!fast)
+    for (int level = 4; level <= 8; ++level)
+      add(R, "focusE_deep_L" + std::to_string(level) + "_p0", ES, level == 8, true, [=](uint64_t idx) { return place(focus_tree(level, idx, 0, VV), 0); });
   for (int p = 0; p < (fast ? 7 : 6); ++p) {
     const TreeAlphabet a = palette(p, VV, 2);
     // 3 node contents: 7203 trees (thorough, and quick in the -O2 part); 2 node contents {none, two entries}: 722 trees (ASan quick)
